@@ -3,6 +3,7 @@ package props
 import (
 	"fmt"
 	"github.com/AsaiYusuke/jsonpath"
+	"math"
 	"reflect"
 
 	"pgregory.net/rapid"
@@ -16,7 +17,7 @@ const ruleC10 = "single-comparison filters $.list[?(L op R)] (six operators and 
 	"Non-trivial: members of >=3 JSON types at the operand path and >=1 member matches. Distinct = distinct (filter, document)."
 
 var c10NumShort = []string{"0", "1", "-1", "1.5", "100", "2", "1e-07", "1e+21", "-0.5", "123456789"}
-var c10NumAlt = []string{"18446744073709551615", "9223372036854775808", "-9223372036854775809", "123456789012345678901234567890", "9007199254740993", "1.0", "1e0", "10e-1", "1E2", "1e2", "100.0", "-0", "0.0", "0e5", "1.50", "15e-1", "-1.0", "2.0"}
+var c10NumAlt = []string{"1e999", "-1e999", "18446744073709551615", "9223372036854775808", "-9223372036854775809", "123456789012345678901234567890", "9007199254740993", "1.0", "1e0", "10e-1", "1E2", "1e2", "100.0", "-0", "0.0", "0e5", "1.50", "15e-1", "-1.0", "2.0"}
 var c10Strs = []string{"1", "a", "", "1.5", "true", "null", "A", "ab", "a/b", "é", "100"}
 var c10LitNums = []string{"18446744073709551615", "9223372036854775807", "9223372036854775808", "10000000000000000000", "1", "1.0", "1e0", "+1", "100", "1e2", "-0", "0", "1.5", "-1", "2", "-0.5", "0.5e1"}
 
@@ -379,6 +380,13 @@ func canonNumbers(v []interface{}) string {
 			return a
 		}
 		if f, ok := spec.NumValue(x); ok {
+			// a number beyond the float64 range (json.Number only) is the member that the float64
+			// decoding holds as the largest finite number
+			if math.IsInf(f, 1) {
+				f = math.MaxFloat64
+			} else if math.IsInf(f, -1) {
+				f = -math.MaxFloat64
+			}
 			return f
 		}
 		return x
